@@ -17,7 +17,7 @@ ASSUMPTIONS = [
     "lost replies are explored in the model only (they cannot be injected through the public API)",
     "Required(level) is Selector.tla's (the same definition C15 uses)",
 ]
-LAYOUTS = {"quick": "3;2,1", "thorough": "3;2,1;1,2;2,2;1,1,1;4;3,2"}
+LAYOUTS = {"quick": "3;2,1;4", "thorough": "3;2,1;1,2;2,2;1,1,1;4;3,2"}
 
 
 def run(ctx):
